@@ -159,11 +159,59 @@ func (v *Verifier) verifyFunc(fi *FuncInfo) (rep *FuncReport) {
 		rep.Trusted = true
 		return
 	}
+	if fi.Decl.Body == nil {
+		rep.Rejected = "no body"
+		return
+	}
+	ncases := 1
+	if len(con.Split) > 0 {
+		ncases = len(con.Split) + 1
+	}
+	for k := 0; k < ncases; k++ {
+		caseIdx := -1
+		if len(con.Split) > 0 {
+			caseIdx = k
+		}
+		v.verifyCase(fi, con, rep, caseIdx)
+		if rep.Rejected != "" {
+			return
+		}
+	}
+	return
+}
+
+func appendUniq(dst []string, src []string) []string {
+	seen := map[string]bool{}
+	for _, d := range dst {
+		seen[d] = true
+	}
+	for _, s := range src {
+		if !seen[s] {
+			seen[s] = true
+			dst = append(dst, s)
+		}
+	}
+	sort.Strings(dst)
+	return dst
+}
+
+// verifyCase runs the symbolic execution for one case of the contract's split
+// (caseIdx -1: no split; caseIdx == len(Split): the remainder where no split condition holds).
+func (v *Verifier) verifyCase(fi *FuncInfo, con *Contract, rep *FuncReport, caseIdx int) {
 	v.reset(fi, con)
 	if v.eng.MathInts {
 		rep.Mode = "math"
 	}
 	v.curFn = rep.Name
+	caseTag := ""
+	if caseIdx >= 0 {
+		if caseIdx < len(con.Split) {
+			caseTag = fmt.Sprintf("{%s}", strings.ReplaceAll(con.Split[caseIdx].Text, " ", ""))
+		} else {
+			caseTag = "{otherwise}"
+		}
+	}
+	v.caseTag = caseTag
 	defer func() {
 		if r := recover(); r != nil {
 			if u, ok := r.(unsupported); ok {
@@ -177,10 +225,6 @@ func (v *Verifier) verifyFunc(fi *FuncInfo) (rep *FuncReport) {
 			rep.Rejected = fmt.Sprintf("engine panic: %v\n%s", r, debug.Stack())
 		}
 	}()
-	if fi.Decl.Body == nil {
-		rep.Rejected = "no body"
-		return
-	}
 	c := v.eng.C
 	fr := &Frame{fi: fi, pkg: fi.Pkg, vars: map[types.Object]*Cell{}, byName: map[string]*Cell{}, ghost: map[string]Val{}}
 	st := &State{vals: map[*Cell]Val{}, heaps: map[string]*Term{}}
@@ -203,6 +247,32 @@ func (v *Verifier) verifyFunc(fi *FuncInfo) (rep *FuncReport) {
 		}
 	}
 	v.prescanBoxesInput(fr, st, fi, con, inputSlices)
+	// case split: assume the case condition; "x == const" on an input symbol is substituted
+	if caseIdx >= 0 {
+		subst := map[*Term]*Term{}
+		for k, cl := range con.Split {
+			t := v.asBool(v.evalSpec(fr, st, cl.Expr), fi.Decl.Pos())
+			if k == caseIdx {
+				st.assume(t)
+				if t.Op == "=" {
+					a, b := t.Args[0], t.Args[1]
+					if a.IsConst() {
+						a, b = b, a
+					}
+					if a.Op == "var" && b.IsConst() {
+						subst[a] = b
+					}
+				}
+			} else if caseIdx == len(con.Split) || k < caseIdx {
+				st.assume(c.Not(t))
+			}
+		}
+		if len(subst) > 0 {
+			for cell, val := range st.vals {
+				st.vals[cell] = v.substVal(val, subst)
+			}
+		}
+	}
 	for _, cl := range con.Requires {
 		st.assume(v.asBool(v.evalSpec(fr, st, cl.Expr), fi.Decl.Pos()))
 	}
@@ -241,20 +311,46 @@ func (v *Verifier) verifyFunc(fi *FuncInfo) (rep *FuncReport) {
 		v.checkFrame(fr, o, con)
 		fr.resultV = nil
 	}
-	_ = c
-	rep.obls = v.obls
-	rep.Unrolled = v.unrolled
-	rep.Inlined = sortedKeys(v.inlined)
-	rep.ByContract = sortedKeys(v.calledByContract)
-	rep.TrustedUsed = sortedKeys(v.trustedUsed)
-	rep.Intrinsics = sortedKeys(v.intrinsicsUsed)
-	rep.Notes = v.notes
-	// vacuity: the precondition must be satisfiable
-	rep.Vacuity = v.checkVacuity(rep.Name, entryPC)
-	if nret == 0 {
-		rep.Notes = append(rep.Notes, "no returning path (all paths panic or are infeasible)")
+	rep.obls = append(rep.obls, v.obls...)
+	rep.Unrolled = appendUniq(rep.Unrolled, v.unrolled)
+	rep.Inlined = appendUniq(rep.Inlined, sortedKeys(v.inlined))
+	rep.ByContract = appendUniq(rep.ByContract, sortedKeys(v.calledByContract))
+	rep.TrustedUsed = appendUniq(rep.TrustedUsed, sortedKeys(v.trustedUsed))
+	rep.Intrinsics = appendUniq(rep.Intrinsics, sortedKeys(v.intrinsicsUsed))
+	rep.Notes = appendUniq(rep.Notes, v.notes)
+	// vacuity: the precondition (with the case condition) must be satisfiable
+	vac := v.checkVacuity(rep.Name+caseTag, entryPC)
+	if rep.Vacuity == "" || strings.HasPrefix(vac, "VACUOUS") {
+		rep.Vacuity = vac
+	} else if !strings.HasPrefix(rep.Vacuity, "VACUOUS") && strings.Contains(vac, "unknown") {
+		rep.Vacuity = vac
 	}
-	return
+	if nret == 0 && caseIdx < len(con.Split) {
+		rep.Notes = append(rep.Notes, "no returning path (all paths panic or are infeasible)"+caseTag)
+	}
+}
+
+func (v *Verifier) substVal(val Val, m map[*Term]*Term) Val {
+	switch x := val.(type) {
+	case PtrVal:
+		if x.Loc != nil {
+			return x
+		}
+	case BoxedArr:
+		return x
+	case Scalar:
+		return Scalar{v.eng.C.Subst(x.T, m), x.Typ}
+	}
+	sh := shapeOfVal(val)
+	if sh == nil {
+		return val
+	}
+	ls := v.eng.leaves(val)
+	ns := make([]*Term, len(ls))
+	for i, l := range ls {
+		ns[i] = v.eng.C.Subst(l, m)
+	}
+	return v.eng.valFromLeaves(sh, ns)
 }
 
 func sortedKeys(m map[string]bool) []string {
